@@ -41,7 +41,27 @@ Fixpoint ress_eqb (a b : list res) : bool :=
    VmError::Native(Trap)). *)
 Inductive case :=
 | CDirect (c : config) (f : flags) (ops : list op) (outs : list res) (nlogs nevents : N)
-| CTx (c : config) (f : flags) (ops : list op) (out : res).
+| CTx (c : config) (f : flags) (ops : list op) (out : res)
+(* CBoundary: one program (unknown event list) executed under several values of the heap (true) or
+   track (false) total limit: (limit, None) = committed, (limit, Some x) = failed with the limit
+   error x (directly, or wrapped in a TypeCheckError: `surfaced`). *)
+| CBoundary (heap : bool) (obs : list (N * option surfaced)).
+
+Definition boundary_cfg (heap : bool) (l : N) : config :=
+  if heap then mkConfig 8 l 67108864 1024 2097152 1048576 65536 32768 32768 256 256
+  else mkConfig 8 67108864 l 1024 2097152 1048576 65536 32768 32768 256 256.
+Definition boundary_state (heap : bool) (a : N) : state :=
+  if heap then mkState a 0 0 0 0 else mkState 0 a 0 0 0.
+Definition failure_ok (heap : bool) (l : N) (x : surfaced) : bool :=
+  match surfaced_err x with
+  | HeapExceeded a m =>
+      heap && res_eqb (check_totals (boundary_cfg true l) (boundary_state true a)) (RErr (HeapExceeded a m))
+  | TrackExceeded a m =>
+      negb heap && res_eqb (check_totals (boundary_cfg false l) (boundary_state false a)) (RErr (TrackExceeded a m))
+  | _ => false
+  end.
+Definition actual_of (x : surfaced) : N :=
+  match surfaced_err x with HeapExceeded a _ | TrackExceeded a _ => a | _ => 0 end.
 
 Definition check (k : case) : bool :=
   match k with
@@ -49,4 +69,19 @@ Definition check (k : case) : bool :=
       let '(rs, s) := run_all c f state0 ops in
       ress_eqb rs outs && (logs s =? nl) && (events s =? ne)
   | CTx c f ops out => res_eqb (tx_outcome c f ops) out
+  | CBoundary heap obs =>
+      (* a failure under limit l reports a total that check_totals rejects under l, with max = l *)
+      forallb (fun o : N * option surfaced =>
+                 match snd o with Some x => failure_ok heap (fst o) x && receipt_failed (snd o) | None => true end) obs
+      (* the program committed under l: every total it ever reports is within l (a run passes iff no
+         total exceeds the limit; the totals do not depend on the limit) *)
+      && forallb (fun o : N * option surfaced =>
+                    match snd o with
+                    | None => forallb (fun o' : N * option surfaced =>
+                                         match snd o' with
+                                         | Some x => res_eqb (check_totals (boundary_cfg heap (fst o)) (boundary_state heap (actual_of x))) ROk
+                                         | None => true
+                                         end) obs
+                    | Some _ => true
+                    end) obs
   end.
